@@ -225,12 +225,21 @@ func verifyCertificateSignature(
 
 	switch pubKey := certificate.PublicKey.(type) {
 	case ed25519.PublicKey:
+		if signatureAlgorithm != signature.Ed25519 || hashAlgorithm != hash.Ed25519 {
+			return dtlserrors.ErrInvalidSignatureAlgorithm
+		}
 		if ok := ed25519.Verify(pubKey, message, remoteKeySignature); !ok {
 			return dtlserrors.ErrKeySignatureMismatch
 		}
 
 		return nil
 	case *ecdsa.PublicKey:
+		// The scheme named by the peer must fit the key of its certificate. Without this
+		// check an ECDSA key combined with e.g. the Ed25519 scheme reached ecdsa.Verify with
+		// an empty digest, for which a signature can be forged without the private key.
+		if signatureAlgorithm != signature.ECDSA || len(hashAlgorithm.Digest(nil)) == 0 {
+			return dtlserrors.ErrInvalidSignatureAlgorithm
+		}
 		ecdsaSig := &ecdsaSignature{}
 		if _, err := asn1.Unmarshal(remoteKeySignature, ecdsaSig); err != nil {
 			return err
@@ -245,6 +254,9 @@ func verifyCertificateSignature(
 
 		return nil
 	case *rsa.PublicKey:
+		if (signatureAlgorithm != signature.RSA && !signatureAlgorithm.IsPSS()) || len(hashAlgorithm.Digest(nil)) == 0 {
+			return dtlserrors.ErrInvalidSignatureAlgorithm
+		}
 		hashed := hashAlgorithm.Digest(message)
 
 		// Use RSA-PSS verification if the signature algorithm is PSS
